@@ -304,6 +304,9 @@ func checkC11(c *Ctx) {
 				c.Inconclusive("bad Sampler behaviour: %v", err)
 				return
 			}
+			if ndiv >= 15 {
+				return // the code no longer passes the sampler's hook sites as the model has them: stop paying timeouts
+			}
 			ngate++
 			if ngate%701 == 1 {
 				c.Sample(map[string]interface{}{"mode": "gate", "params": p, "schedule": smpSchedule(b)})
